@@ -499,6 +499,11 @@ def gen_scenario(rng, ops=None, force=None):
         if op in ("whits", "whitswcv") and dtype.startswith("float") and rng.random() < 0.25:
             data[nprng.random(data.shape) < 0.05] = np.nan
 
+    # invalid-but-not-nodata readings in rainfall data (the SPI kernels expect and skip them)
+    if op == "spi" and rng.random() < 0.25:
+        for _ in range(rng.randint(1, 3)):
+            data[rng.randrange(T), rng.randrange(Y), rng.randrange(X)] = -rng.randint(1, 9)
+        pattern = pattern + "+negative"
     # degenerate pixels (early-exit branches of the kernels): all zero, constant, mostly zero, one spike
     if op not in ("dekad",) and rng.random() < 0.4:
         for _ in range(rng.randint(1, 2)):
